@@ -1,7 +1,8 @@
 (* Executable model of pkg/format/rtpklv (encoder.go, decoder.go). Proof-free.
    A KLV unit is one or more items (16-byte universal label key 06 0e 2b 34 .., BER length, value).
    The model is faithful to the pinned tree, including:
-   - the decoder returns d.buffer itself and reset() keeps d.buffer[:0]   (F3: region tags below)
+   - the decoder returns d.buffer itself; reset() DROPS the buffer (d.buffer = nil, fix 5cc6a94 for
+     finding F3), so a returned unit is never the backing array of a later one (region tags below)
    - the decoder cuts a fragmented unit at the first item's length          (F2: expectedSize)
    - the decoder has no size cap                                            (F4) *)
 From GVL Require Import NList Wire Chunks Rtp.
@@ -45,9 +46,9 @@ Record dstate := mkD {
 
 Definition dinit : dstate := mkD [] 0 0 false 0 false 0 0 1.
 
-(* reset(): buffer = buffer[:0] (same backing array), lastSeqNum is NOT cleared *)
+(* reset(): buffer = nil (the array may have been returned to the caller), lastSeqNum is NOT cleared *)
 Definition dreset (d : dstate) : dstate :=
-  mkD [] 0 0 false (dlast d) false (dreg d) (dcap d) (dfresh d).
+  mkD [] 0 0 false (dlast d) false 0 0 (dfresh d).
 
 (* append(buf[:n], k bytes): (region, certain capacity, next fresh tag, regions written) *)
 Definition append_reg (reg cap fresh n k : N) : N * N * N * list N :=
